@@ -213,7 +213,7 @@ pub fn check_tight(tape: &[u16], rc: &mut RCase) -> Result<(), Failure> {
             collateral: None,
             references: vec![],
             store: vec![rgen::SUtxo { id: 7, party: 0, lovelace: 1i128 << 36, token: 5000 }],
-            n_parties: 3,
+            n_parties: 3, extras: vec![],
         });
     }
     // one time in three the last earlier resolution fails *late*: its funding is one lovelace short of what
@@ -270,6 +270,7 @@ pub fn check_tight(tape: &[u16], rc: &mut RCase) -> Result<(), Failure> {
             references: vec![],
             store: vec![rgen::SUtxo { id: 0, party: 2, lovelace: funding, token: 0 }],
             n_parties: if parameterless { 0 } else { 3 },
+            extras: vec![],
         }
     };
     let fresh_ok = |funding: i128| matches!(run_one(&mk(funding), &mut pipeline::compiler(&cfg), rounds), Outcome::Ok { .. });
